@@ -22,6 +22,8 @@ type gen struct {
 	rng    *core.Rand
 	nextID int
 	budget int // remaining handlers + routes
+	exprLeft int // real expression matchers still allowed in this tree (each costs a CEL compilation)
+	exprOdds int
 	nNamed int // named routes of the tree being drawn
 	minInv int // invoke handlers drawn now must name a route > minInv
 }
@@ -55,6 +57,22 @@ func (g *gen) matcher(kind int, depth int, errOdds, legacyOdds int) *matcher {
 		return &matcher{kind: 'a', field: kind, vals: g.subset(fieldSize[kind], min)}
 	case kind <= 6:
 		return &matcher{kind: 'e', ekind: kind - 4, status: errStatuses[g.rng.Intn(len(errStatuses))]}
+	case kind == 10:
+		codes := []int{400, 403, 404, 500, 503}
+		if g.rng.Chance(1, 2) {
+			lo := []int{400, 404, 500}[g.rng.Intn(3)]
+			return &matcher{kind: 'c', vals: []int{lo, []int{lo, 499, 599}[g.rng.Intn(3)]}}
+		}
+		m := &matcher{kind: 'k'}
+		for _, c := range codes {
+			if g.rng.Chance(2, 5) {
+				m.vals = append(m.vals, c)
+			}
+		}
+		if len(m.vals) == 0 {
+			m.vals = []int{404}
+		}
+		return m
 	case kind >= 8:
 		return &matcher{kind: 'l', ekind: kind - 8}
 	}
@@ -68,9 +86,14 @@ func (g *gen) matcher(kind int, depth int, errOdds, legacyOdds int) *matcher {
 // set draws a matcher set: distinct kinds in random order (the order is part of the case).
 func (g *gen) set(depth int, errOdds, legacyOdds int) []*matcher {
 	var kinds []int
-	for k := 0; k <= 9; k++ {
+	for k := 0; k <= 10; k++ {
 		var take bool
 		switch {
+		case k == 10:
+			take = g.exprLeft > 0 && g.rng.Chance(g.exprOdds, 100)
+			if take {
+				g.exprLeft--
+			}
 		case k <= 3:
 			take = g.rng.Chance(3, 10)
 		case k <= 6:
@@ -175,6 +198,10 @@ func (g *gen) routes(depth, max int, sh shape) []*route {
 func (g *gen) tree(tier string) (rs []*route, hasErrs bool, errs []*route, named []*route) {
 	g.nextID = 0
 	g.nNamed, g.minInv = 0, 0
+	g.exprLeft, g.exprOdds = 0, 0
+	if g.rng.Chance(1, 4) {
+		g.exprLeft, g.exprOdds = 2, 25
+	}
 	if g.rng.Chance(3, 10) {
 		g.nNamed = 1 + g.rng.Intn(3)
 	}
@@ -196,6 +223,7 @@ func (g *gen) tree(tier string) (rs []*route, hasErrs bool, errs []*route, named
 		sh.rewriteOdds, sh.failOdds, sh.noSetOdds = 35, 20, 60
 	case 6: // the error path as deployed: real error / static_response handlers driven by the error placeholders
 		sh.failOdds, sh.realOdds, sh.subErrOdds, sh.noSetOdds = 30, 75, 50, 60
+		g.exprLeft, g.exprOdds = 3, 40
 	case 5: // error matchers next to legacy (RequestMatcher-only) matchers
 		sh.errOdds, sh.legacyOdds, sh.noSetOdds = 12, 30, 15
 	}
@@ -272,7 +300,7 @@ func (g *gen) malformed(good string) string {
 }
 
 func (prop) Generate(rng *core.Rand, tier string, emit func(string)) {
-	n := 12000
+	n := 10000
 	switch tier {
 	case "thorough":
 		n = 150000
@@ -404,6 +432,17 @@ func evaluate(c tcase) (got observed, tags []string, fails []core.Failure, err e
 	if got2, err := serveReal(wrapped, hasErrs, errs, q, named); err != nil || canon(got2) != canon(got) {
 		fails = append(fails, fail("subroute-wrap-changes-outcome",
 			fmt.Sprintf("the same routes inside one subroute give %s instead of %s (%v)", canon(got2), canon(got), err)))
+	}
+	// ---- oracle 4 (two-run relation): the metrics instrumentation wrapped around every handler
+	// of the top-level and named routes is transparent to routing
+	got4, err4 := func() (observed, error) {
+		withMetrics = true
+		defer func() { withMetrics = false }()
+		return serveReal(rs, hasErrs, errs, q, named)
+	}()
+	if err4 != nil || canon(got4) != canon(got) {
+		fails = append(fails, fail("metrics-instrumentation-changes-outcome",
+			fmt.Sprintf("with http metrics enabled the same request gives %s instead of %s (%v)", canon(got4), canon(got), err4)))
 	}
 	// ---- oracle 3 (two-run relation): a route that does not apply has no effect at all, even
 	// if it is terminal and shares a group with later routes
